@@ -296,7 +296,9 @@ def interpret(cmds):
                 fam, ctrl = "Q", c1
             elif lc == "a":
                 p1 = (ox + a[5], oy + a[6])
-                sub["segs"].append(("A", p0, a[0], a[1], a[2], int(a[3]), int(a[4]), p1))
+                # F.6.2: identical end points => the segment is omitted entirely
+                if p1 != p0:
+                    sub["segs"].append(("A", p0, a[0], a[1], a[2], int(a[3]), int(a[4]), p1))
             else:
                 raise ValueError(c)
             cur = p1
@@ -457,26 +459,40 @@ def _pt_seg_d2(px, py, ax, ay, bx, by):
 
 
 def directed_dist(pts, poly):
-    """max over pts of distance to polyline poly."""
-    worst = 0.0
+    """max over pts of the distance to polyline poly (numpy when large)."""
+    if not pts:
+        return 0.0
     if len(poly) == 1:
         ax, ay = poly[0]
+        return math.sqrt(max((px - ax) ** 2 + (py - ay) ** 2 for px, py in pts))
+    if len(pts) * len(poly) < 400:
+        worst = 0.0
         for px, py in pts:
-            worst = max(worst, (px - ax) ** 2 + (py - ay) ** 2)
+            best = float("inf")
+            for i in range(len(poly) - 1):
+                ax, ay = poly[i]
+                bx, by = poly[i + 1]
+                d = _pt_seg_d2(px, py, ax, ay, bx, by)
+                if d < best:
+                    best = d
+                    if best == 0:
+                        break
+            if best > worst:
+                worst = best
         return math.sqrt(worst)
-    for px, py in pts:
-        best = float("inf")
-        for i in range(len(poly) - 1):
-            ax, ay = poly[i]
-            bx, by = poly[i + 1]
-            d = _pt_seg_d2(px, py, ax, ay, bx, by)
-            if d < best:
-                best = d
-                if best == 0:
-                    break
-        if best > worst:
-            worst = best
-    return math.sqrt(worst)
+    import numpy as np
+
+    P = np.asarray(pts, dtype=float)
+    Q = np.asarray(poly, dtype=float)
+    A, B = Q[:-1], Q[1:]
+    D = B - A
+    L = (D * D).sum(1)
+    L[L == 0] = 1.0
+    W = P[:, None, :] - A[None, :, :]
+    t = ((W * D[None, :, :]).sum(2) / L[None, :]).clip(0.0, 1.0)
+    C = A[None, :, :] + t[:, :, None] * D[None, :, :]
+    d2 = ((P[:, None, :] - C) ** 2).sum(2).min(1)
+    return float(math.sqrt(d2.max()))
 
 
 def two_sided(pa, pb):
@@ -530,7 +546,7 @@ def compare_curves(A, B, tol_exact, tol_geom=None, n=24):
         pa, pb = sub_polyline(a, n), sub_polyline(b, n)
         # flattening error of the *denser* polyline is second order; sample
         # points come from the true curves, distances are to chords of a fine polyline
-        fa, fb = sub_polyline(a, n * 8), sub_polyline(b, n * 8)
+        fa, fb = sub_polyline(a, n * 6), sub_polyline(b, n * 6)
         d = max(directed_dist(pa, fb), directed_dist(pb, fa))
         if d > tg:
             return f"subpath {i}: curves differ by {d:.3g} > {tg:.3g}"
